@@ -577,6 +577,21 @@ func TestVerifC05(t *testing.T) {
 		p.IPs = sessionIPs(r, i, i%5 == 0)
 		plans = append(plans, p)
 	}
+	// two carriers at once of which the NEWER one ends first: the session goes on over
+	// the older one alone, and everything must still arrive through it
+	for i := 0; i < vlib.Scale(6, 36); i++ {
+		if i%nshards != shard {
+			continue
+		}
+		r := root.SplitN("older-survives", i)
+		p := &sessionPlan{Tag: r.Uint64() | 1, LenUp: uint64(r.Range(100000, 300000)), LenDown: uint64(r.Range(100000, 400000))}
+		for k := r.Intn(3); k > 0; k-- {
+			p.Carriers = append(p.Carriers, carrierPlan{Kind: "cut", CutUp: genCut(r, 2000), CutDown: -1})
+		}
+		p.Carriers = append(p.Carriers, carrierPlan{Kind: "double-older-survives", CutUp: -1, CutDown: -1}, carrierPlan{Kind: "cut", CutUp: int64(r.Range(1500, 30000)), CutDown: -1})
+		p.IPs = sessionIPs(r, i, false)
+		plans = append(plans, p)
+	}
 	var twg sync.WaitGroup
 	run := (*e2eRun)(nil)
 	started := make(chan *e2eServer, 1)
